@@ -196,10 +196,14 @@ def secondsToMs : JVal → Option Nat
 
 def validSignum (i : Int) : Bool := 0 < i && i < 65
 
+/-- `Watcher._default_ignore_hook_failure` -/
+def defaultIgnoreFail : List String := ["before_stop", "after_stop", "before_signal", "after_signal", "extended_stats"]
+
 /-- option changes that do not touch numprocesses -/
 inductive OptChange where
   | warmup (ms : Nat) | graceful (ms : Nat) | stopSignal (n : Nat) | stopChildren (b : Bool)
   | sendHup (b : Bool) | maxAge (n : Nat) | nothing
+  | hook (name : String) (outs : List String) (ignore : Bool)      -- `set <w> hooks.<name> = "dotted.name[,flag]"`
   deriving Repr, Inhabited
 
 def applyOpt : OptChange → Watcher → Watcher
@@ -210,11 +214,58 @@ def applyOpt : OptChange → Watcher → Watcher
   | .sendHup b, w => { w with sendHup := b }
   | .maxAge n, w => { w with maxAge := n }
   | .nothing, w => w
+  -- `_resolve_hook`: `self.hooks[name] = …`; with the flag the name joins `ignore_hook_failure` (once); without it the name
+  -- leaves the list again unless it is one of the five names ignored by default (since fix 512dcc9: before it the flag of a
+  -- replaced hook stuck for ever, F32)
+  | .hook h outs ig, w =>
+    { w with hooks := (h, { outs := outs, ignore := ig }) :: w.hooks.filter (·.1 ≠ h),
+             ignoreFail := if ig then (if w.ignoreFail.contains h then w.ignoreFail else w.ignoreFail ++ [h])
+                           else if defaultIgnoreFail.contains h then w.ignoreFail
+                           else w.ignoreFail.filter (· ≠ h) }
+
+/-- `str.strip()` over the ASCII white space the generated flags contain -/
+def pyStripWs (s : String) : String :=
+  let ws : Char → Bool := fun c => c = ' ' || c = '\t' || c = '\n' || c = '\r'
+  String.ofList ((s.toList.dropWhile ws).reverse.dropWhile ws).reverse
+
+/-- `util.to_bool` on a string: `none` = ValueError -/
+def pyToBool (s : String) : Option Bool :=
+  let t := pyStripWs (pyLower s)
+  if ["yes", "true", "on", "1"].contains t then some true
+  else if ["no", "false", "off", "0"].contains t then some false
+  else none
+
+/-- `resolve_name(dotted, reload=True)` for the hook names of the harness (harness/simhooks.py): `harness.simhooks.o_<letters>`
+    is a hook whose scripted outcomes are the letters (t = true, f = false, r = raise), cycled by the per-watcher, per-hook call
+    counter; every other name is an ImportError (`none`) -/
+def simHookOuts (dotted : String) : Option (List String) :=
+  let pre := "harness.simhooks.o_"
+  if dotted.startsWith pre then
+    let ls := dotted.toList.drop pre.length
+    if ls.isEmpty || !(ls.all fun c => c = 't' || c = 'f' || c = 'r') then none
+    else some (ls.map fun c => if c = 't' then "true" else if c = 'f' then "false" else "raise")
+  else none
+
+/-- the `hooks…` branch of `Watcher.set_opt`: `val.split(',')`, the flag through `to_bool` when there are exactly two parts,
+    `_reload_hook(key, parts[0], flag)` with the hook name `key.split('.')[-1]` -/
+def hookChange (key : String) (val : JVal) : Option OptChange :=
+  match val with
+  | .str v =>
+    let parts := v.splitOn ","
+    let flag : Option Bool := if parts.length = 2 then pyToBool (parts.getD 1 "") else some false
+    match flag with
+    | none => none                                   -- ValueError from to_bool
+    | some ig =>
+      match simHookOuts (parts.getD 0 "") with
+      | none => none                                 -- ImportError from resolve_name
+      | some outs => some (.hook ((key.splitOn ".").getLast?.getD key) outs ig)
+  | _ => none                                        -- `val.split`: AttributeError
 
 def setWOpt (uid : Nat) (c : OptChange) : M Unit := modW uid (applyOpt c)
 
 /-- what `set_opt(key, val)` changes; `none` = it raises (ValueError/TypeError → generic errno 5) -/
 def optChange (key : String) (val : JVal) : Option OptChange :=
+  if key.startsWith "hooks" then hookChange key val else
   match key, val with
   | "warmup_delay", v => (secondsToMs v).map .warmup
   | "graceful_timeout", v => (secondsToMs v).map .graceful
@@ -223,6 +274,7 @@ def optChange (key : String) (val : JVal) : Option OptChange :=
   | "stop_children", .bool b => some (.stopChildren b)
   | "send_hup", .bool b => some (.sendHup b)
   | "max_age", .int i => some (.maxAge i.toNat)
+  | "max_age", .bool b => some (.maxAge (if b then 1 else 0))     -- `int(True)`: a bool passes validate_option as an int
   | "uid", .int 0 => some .nothing
   | "uid", .str "root" => some .nothing
   | "uid", _ => none
